@@ -245,7 +245,7 @@ func genAllocC19(c *genCtx, sw *shardWriter, j *jb) {
 	g := &docGen{rng: c.rng}
 	nf := 300
 	if c.thorough() {
-		nf = 4000
+		nf = 20000
 	}
 	for i := 0; i < nf; i++ {
 		floats = append(floats, string(g.num(nil)))
@@ -269,7 +269,7 @@ func genAllocC19(c *genCtx, sw *shardWriter, j *jb) {
 		`"` + strings.Repeat("y", 200) + `\n` + strings.Repeat("z", 200) + `"`}
 	ns := 200
 	if c.thorough() {
-		ns = 3000
+		ns = 12000
 	}
 	g.maxStr, g.hiBytes = 30, true
 	for i := 0; i < ns; i++ {
@@ -301,7 +301,7 @@ func genAllocC19(c *genCtx, sw *shardWriter, j *jb) {
 	}
 	nd := 150
 	if c.thorough() {
-		nd = 2500
+		nd = 10000
 	}
 	for i := 0; i < nd; i++ {
 		dg := &docGen{rng: c.rng, maxDepth: 1 + c.rng.Intn(7), maxWidth: 1 + c.rng.Intn(5), wsProb: 0.2, maxStr: 8, hiBytes: true}
@@ -506,7 +506,7 @@ func genMemC20(c *genCtx, sw *shardWriter, j *jb) {
 	defer runtime.GOMAXPROCS(old)
 	scales := []int{250, 1000, 4000}
 	if c.thorough() {
-		scales = []int{500, 2000, 8000, 32000}
+		scales = []int{500, 2000, 8000, 32000, 128000}
 	}
 	for _, sh := range memShapes {
 		for fi, fn := range memFns {
@@ -526,7 +526,7 @@ func genMemC20(c *genCtx, sw *shardWriter, j *jb) {
 	// histories on one reader / one buffer: a large document, then many small ones (succeeding or failing)
 	m := 2000
 	if c.thorough() {
-		m = 20000
+		m = 60000
 	}
 	for _, h := range memHists() {
 		setCurrent("memhist " + h.name)
